@@ -104,6 +104,18 @@ def classify_collision(a, b):
     return sigs or ["vid-collision"]
 
 
+def classify_impure(a, b):
+    """signature of the reason why two steps with the same execution side have different Variant-Ids"""
+    da, db = a["desc"], b["desc"]
+    diff = [k for k in da if k != "vid" and da[k] != db[k]]
+    if diff == ["script"] and a.get("frag_exec_order") is not None and a.get("frag_exec_order") == b.get("frag_exec_order") \
+            and a.get("frag_digest_order") != b.get("frag_digest_order"):
+        # same executed fragment sequence, but the digest script lists the Finalize digests in class order while
+        # they run in reverse class order: the converse face of F-C02-2
+        return F2
+    return "vid-not-a-function-of-what-is-executed"
+
+
 def _member_case(members, idx):
     pj, sandbox = members[idx]["project"], members[idx]["sandbox"]
     return {"project": pj, "sandbox": sandbox, "edit": members[idx].get("edit")}
@@ -147,7 +159,7 @@ def check_family(ctx, members, report=True):
                 viol("steps %s (member %d) and %s (member %d) execute and consume the same but have Variant-Ids %s / %s"
                      % (first[2]["key"], first[1], rec["key"], mi, first[0], vid),
                      {"kind": "pair", "expect": "pure", "a": dict(_member_case(members, first[1]), key=first[2]["key"]),
-                      "b": dict(_member_case(members, mi), key=rec["key"])}, "vid-not-a-function-of-what-is-executed")
+                      "b": dict(_member_case(members, mi), key=rec["key"])}, classify_impure(first[2], rec))
             pkgenv.setdefault(rec["key"].rsplit(":", 1)[0], {})[rec["label"]] = rec
         # (3) declarations accumulate checkout <= build <= package; declared variables reach the execution environment
         for pk, st in pkgenv.items():
